@@ -18,6 +18,12 @@ fn go<T: Scalar, const D: usize>(h: &C09, out: &mut Outcome<T>) {
     let g = h.entry.ograph();
     let kin = sym_kin::<T>(&g, D, h.offsets);
     let run = run_sample::<T, D>(&h.entry, &h.routing, &kin, &settings(true, true, None), None, out);
+    // the rescaled Feynman parameters are abstracted to arbitrary positive reals on every path,
+    // error paths included (so that their infeasibility is decided once, independently of the sector)
+    let x = run.logged("momtrop_feynman_parameter").expect("feature log: momtrop_feynman_parameter").clone();
+    for (e, xe) in x.iter().enumerate() {
+        out.cut(*xe, format!("X{}", e), &["(> {} 0.0)"]);
+    }
     let res = match &run.res {
         Ok(r) => r,
         Err(e) => {
@@ -25,8 +31,7 @@ fn go<T: Scalar, const D: usize>(h: &C09, out: &mut Outcome<T>) {
             return;
         }
     };
-    let x = run.logged("momtrop_feynman_parameter").expect("feature log").clone();
-    cut_x_u_inverse(out, &g, &h.routing.sig, &x, res);
+    cut_u_inverse(out, &g, &h.routing.sig, &x, res);
     let f_spec = oracle::f_poly(&g, &x, &kin.pin, &run.m2);
     out.prove("v*u=F (2-forests + U*sum m^2 x)", res.v * res.u, Rel::Eq, f_spec);
     out.prove("u=U", res.u, Rel::Eq, oracle::u_poly(&g, &x));
